@@ -13,7 +13,7 @@ OPTS = {'quick': {'late_started': True, 'sweep_windows': False}, 'thorough': {'j
 
 def check(tier, seed, procs):
     depth = 5 if tier == 'quick' else 8
-    res = bf.run(MONITORS, base.setups(tier), tier, depth, procs, opts=OPTS[tier], time_budget=55 if tier == 'quick' else 1500)
+    res = bf.run(MONITORS, base.setups(tier), tier, depth, procs, opts=OPTS[tier], time_budget=55 if tier == 'quick' else 900)
     cov = bf.coverage(res, f'1 batch, update 1 committed (2-3 jobs, 1-2 nested groups), update 2 submitted step by step '
                            f'(1-2 jobs, 0-1 groups, 1-2 bunches; one setup: batch already complete + group-only update), 2 pool instances, depth {depth}; monitors {MONITORS}')
     return {'coverage': cov, 'violations': res.violations, 'assumptions': bf.ASSUME,
